@@ -194,3 +194,61 @@ func sortStrings(a []string) {
 		}
 	}
 }
+
+// IsParked - is the goroutine with this key waiting to be released?
+func (c *Ctl) IsParked(key string) bool {
+	c.mu.Lock()
+	defer c.mu.Unlock()
+	_, ok := c.parked[key]
+	return ok
+}
+
+// Release - release one specific parked goroutine.
+func (c *Ctl) Release(key string) bool {
+	c.mu.Lock()
+	ch, ok := c.parked[key]
+	if ok {
+		delete(c.parked, key)
+		c.lastKey = key
+	}
+	c.mu.Unlock()
+	if ok {
+		close(ch)
+	}
+	return ok
+}
+
+// EventAt - the i-th logged event (ok=false if not there yet).
+func (c *Ctl) EventAt(i int) (Event, bool) {
+	c.mu.Lock()
+	defer c.mu.Unlock()
+	if i < len(c.Log) {
+		return c.Log[i], true
+	}
+	return Event{}, false
+}
+
+// LastEventOfKey - the most recent event logged by the goroutine with this key.
+func (c *Ctl) LastEventOfKey(key string) (Event, bool) {
+	c.mu.Lock()
+	defer c.mu.Unlock()
+	for i := len(c.Log) - 1; i >= 0; i-- {
+		e := c.Log[i]
+		k := "W/" + e.G + "/" + e.ID
+		if isSched(e.Ev) {
+			k = "S/" + e.G
+		}
+		if k == key && (isSched(e.Ev) || isWorkerEv(e.Ev)) {
+			return e, true
+		}
+	}
+	return Event{}, false
+}
+
+func isWorkerEv(ev string) bool {
+	switch ev {
+	case "acquiring", "acquired", "locking", "locked", "enter", "frag", "exit", "flush", "sending", "unlocking", "releasing":
+		return true
+	}
+	return false
+}
